@@ -1745,4 +1745,135 @@ theorem firstNode_last (cfg : Cfg) (hl : cfg.firstNodeLast = false) (hu : cfg.no
     exact (List.take_of_length_le (mIdx_small i v)).symm
 
 
+/-- the index list of `reflectGetSlice` (typed slices and arrays) -/
+def modelIdxR (n : Nat) (s e t : Option Int) : List Int :=
+  match Get.rnorm n s e t with
+  | none => []
+  | some b => Get.lastIdx n b
+
+def rStop (n : Nat) (e : Option Int) : Int :=
+  let stop := if e.getD maxEnd < 0 then (if (n : Int) + e.getD maxEnd < -1 then -1 else (n : Int) + e.getD maxEnd) else e.getD maxEnd
+  if (n : Int) < stop then (n : Int) else stop
+
+theorem rnorm_eq (n : Nat) (s e t : Option Int) :
+    Get.rnorm n s e t =
+      if t.getD 1 = 0 then none
+      else if 0 ≤ nStart n s ∧ nStart n s < (n : Int) then some ⟨nStart n s, rStop n e, t.getD 1⟩ else none := rfl
+
+/-- `reflectGetSlice` visits the indexes the `[]any` branch visits (it clamps a negative end at -1 for a
+positive step too, where the loop does not start either way) -/
+theorem modelIdxR_eq (n : Nat) (s e t : Option Int) : modelIdxR n s e t = modelIdx true n s e t := by
+  unfold modelIdxR modelIdx
+  rw [rnorm_eq, norm_eq]
+  have hs0 := nStart_nonneg n s
+  by_cases h0 : t.getD 1 = 0
+  · simp [h0]
+  · by_cases hst : (n : Int) ≤ nStart n s
+    · have : ¬ (0 ≤ nStart n s ∧ nStart n s < (n : Int)) := by omega
+      simp [h0, hst, this]
+    · have hin : 0 ≤ nStart n s ∧ nStart n s < (n : Int) := by omega
+      simp only [h0, hst, hin, and_self, ↓reduceIte, Get.lastIdx]
+      obtain ⟨m, hm⟩ : ∃ m, n = m + 1 := ⟨n - 1, by omega⟩
+      by_cases hpos : 0 < t.getD 1
+      · simp only [hpos, ↓reduceIte]
+        by_cases hlt : nStart n s < rStop n e
+        · have : rStop n e = nStop true n e t := by
+            have hneg : ¬ (t.getD 1 < 0) := by omega
+            unfold rStop nStop at *
+            simp only [hpos, decide_true, Bool.true_or, Bool.true_and, hneg, decide_false, Bool.false_and,
+              Bool.false_eq_true, ↓reduceIte, decide_eq_true_eq] at *
+            (repeat' split at hlt) <;> (repeat' split) <;> omega
+          rw [this]
+        · have h2 : ¬ (nStart n s < nStop true n e t) := by
+            have hneg : ¬ (t.getD 1 < 0) := by omega
+            unfold rStop at hlt
+            unfold nStop
+            simp only [hpos, decide_true, Bool.true_or, Bool.true_and, hneg, decide_false, Bool.false_and,
+              Bool.false_eq_true, ↓reduceIte, decide_eq_true_eq] at *
+            (repeat' split at hlt) <;> (repeat' split) <;> omega
+          rw [hm, loopUp, loopUp, ← hm]
+          simp [hlt, h2]
+      · have hneg : t.getD 1 < 0 := by omega
+        have : rStop n e = nStop true n e t := by
+          unfold rStop nStop
+          simp only [hpos, decide_false, Bool.false_or, Bool.true_and, hneg, decide_true, decide_eq_true_eq,
+            Bool.or_true]
+          (repeat' split) <;> omega
+        simp only [hpos, ↓reduceIte, this]
+
+
+/-! ### Get on every representation (possible once the typed-data flags are off) -/
+
+theorem sliceLast_typed (rep : Rep) (hty : rep.ak.typed = true) (s e t : Option Int) (v : JV) :
+    Get.sliceLast rep s e t v = Get.sliceLast Rep.simple s e t v := by
+  cases v with
+  | arr xs =>
+    have h1 : Get.sliceLast rep s e t (.arr xs) = (modelIdxR xs.length s e t).flatMap (elemAt xs) := by
+      obtain ⟨ak, ok⟩ := rep
+      cases ak <;> simp [AK.typed] at hty <;>
+        (simp only [Get.sliceLast, Get.normFor, modelIdxR]; cases Get.rnorm xs.length s e t <;> simp)
+    rw [h1, sliceLast_arr, modelIdxR_eq]
+  | _ => simp [Get.sliceLast]
+
+theorem sliceLast_rep (rep : Rep) (s e t : Option Int) (v : JV) :
+    Get.sliceLast rep s e t v = Get.sliceLast Rep.simple s e t v := by
+  by_cases hty : rep.ak.typed = true
+  · exact sliceLast_typed rep hty s e t v
+  · obtain ⟨ak, ok⟩ := rep
+    cases ak with
+    | any => cases v <;> simp [Get.sliceLast, Get.normFor, Rep.simple]
+    | indexed => cases v <;> simp [Get.sliceLast, Get.normFor, Rep.simple]
+    | gen =>
+      have := sliceLast_gen s e t v
+      cases v <;> simp_all [Get.sliceLast, Get.normFor, Rep.simple, Rep.gen]
+    | rslice => simp [AK.typed] at hty
+    | rarray => simp [AK.typed] at hty
+
+theorem get_last_rep (cfg : Cfg) (hm : cfg.typedMapWild = false) (ht : cfg.typedObjFilter = false)
+    (rep : Rep) (f : Frag) (v : JV) : Get.last cfg rep f v = Get.last cfg Rep.simple f v := by
+  cases f with
+  | slice s e t => exact sliceLast_rep rep s e t v
+  | wild => cases v <;> simp [Get.last, Get.wildKids, hm]
+  | filter p => cases v <;> simp [Get.last, Get.filterKids, ht]
+  | _ => rfl
+
+theorem slicePush_typed (cfg : Cfg) (rep : Rep) (hty : rep.ak.typed = true) (s e t : Option Int) (v : JV) :
+    (Get.slicePush cfg rep s e t v).reverse = Get.sliceLast rep s e t v := by
+  cases v with
+  | arr xs =>
+    simp only [Get.slicePush, Get.sliceLast, hty, ↓reduceIte]
+    cases Get.normFor rep xs.length s e t <;> simp
+  | _ => simp [Get.slicePush, Get.sliceLast]
+
+theorem get_inner_rep (cfg : Cfg) (he : cfg.innerEmptySlice = false) (hm : cfg.typedMapWild = false)
+    (ht : cfg.typedObjFilter = false) (rep : Rep) (f : Frag) (v : JV) :
+    (Get.sel cfg rep).inner f v = (Get.sel cfg Rep.simple).inner f v := by
+  cases f with
+  | slice s e t =>
+    simp only [Get.sel, Get.push, contOnly, ← List.filter_reverse]
+    rw [slicePush_rev cfg s e t v (Or.inl he)]
+    by_cases hty : rep.ak.typed = true
+    · rw [slicePush_typed cfg rep hty, sliceLast_typed rep hty]
+    · obtain ⟨ak, ok⟩ := rep
+      cases ak with
+      | any =>
+        have : Get.slicePush cfg ⟨.any, ok⟩ s e t v = Get.slicePush cfg Rep.simple s e t v := by
+          cases v <;> simp [Get.slicePush, Get.normFor, Rep.simple, AK.typed]
+        rw [this, slicePush_rev cfg s e t v (Or.inl he)]
+      | indexed =>
+        have : Get.slicePush cfg ⟨.indexed, ok⟩ s e t v = Get.slicePush cfg Rep.simple s e t v := by
+          cases v <;> simp [Get.slicePush, Get.normFor, Rep.simple, AK.typed]
+        rw [this, slicePush_rev cfg s e t v (Or.inl he)]
+      | gen =>
+        have : Get.slicePush cfg ⟨.gen, ok⟩ s e t v = Get.slicePush cfg Rep.gen s e t v := by
+          cases v <;> simp [Get.slicePush, Get.normFor, Rep.gen, AK.typed]
+        rw [this, slicePush_gen cfg s e t v (Or.inl he), slicePush_rev cfg s e t v (Or.inl he)]
+      | rslice => simp [AK.typed] at hty
+      | rarray => simp [AK.typed] at hty
+  | wild => cases v <;> simp [Get.sel, Get.push, Get.wildKids, hm]
+  | filter p => cases v <;> simp [Get.sel, Get.push, Get.filterKids, ht]
+  | descent => simp [Get.sel, Get.push, hm]
+  | _ => rfl
+
+
 end OjgVerif.JPath
